@@ -231,6 +231,21 @@ pub trait InstBuilder: Sized {
     fn ishl(mut self, a: Value, b: Value) -> Value { self.bld().op2(8, a, b) }
     fn ushr(mut self, a: Value, b: Value) -> Value { self.bld().op2(9, a, b) }
     fn sshr(mut self, a: Value, b: Value) -> Value { self.bld().op2(10, a, b) }
+    // immediate forms: the immediate is sign-extended and wrapped to the type of the first operand
+    fn iadd_imm(mut self, a: Value, imm: i64) -> Value { self.bld().op2_imm(0, a, imm) }
+    fn imul_imm(mut self, a: Value, imm: i64) -> Value { self.bld().op2_imm(2, a, imm) }
+    fn udiv_imm(mut self, a: Value, imm: i64) -> Value { self.bld().op2_imm(3, a, imm) }
+    fn urem_imm(mut self, a: Value, imm: i64) -> Value { self.bld().op2_imm(4, a, imm) }
+    fn band_imm(mut self, a: Value, imm: i64) -> Value { self.bld().op2_imm(5, a, imm) }
+    fn bor_imm(mut self, a: Value, imm: i64) -> Value { self.bld().op2_imm(6, a, imm) }
+    fn bxor_imm(mut self, a: Value, imm: i64) -> Value { self.bld().op2_imm(7, a, imm) }
+    fn ishl_imm(mut self, a: Value, imm: i64) -> Value { self.bld().op2_imm(8, a, imm) }
+    fn ushr_imm(mut self, a: Value, imm: i64) -> Value { self.bld().op2_imm(9, a, imm) }
+    fn sshr_imm(mut self, a: Value, imm: i64) -> Value { self.bld().op2_imm(10, a, imm) }
+    /// imm - a
+    fn irsub_imm(mut self, a: Value, imm: i64) -> Value { self.bld().op2_imm(11, a, imm) }
+    fn sextend(mut self, ty: Type, a: Value) -> Value { self.bld().sext_to(ty, a) }
+    fn trapnz(mut self, c: Value, code: TrapCode) -> Inst { self.bld().op_trapnz(c, code) }
     fn ineg(mut self, a: Value) -> Value { self.bld().op1(0, a) }
     fn bswap(mut self, a: Value) -> Value { self.bld().op1(1, a) }
     fn ireduce(mut self, ty: Type, a: Value) -> Value { self.bld().conv(ty, a, false) }
@@ -251,6 +266,9 @@ pub trait InstBuilder: Sized {
 pub trait BuilderCore {
     fn op_const(&mut self, ty: Type, v: u64) -> Value;
     fn op2(&mut self, k: u8, a: Value, b: Value) -> Value;
+    fn op2_imm(&mut self, k: u8, a: Value, imm: i64) -> Value;
+    fn sext_to(&mut self, ty: Type, a: Value) -> Value;
+    fn op_trapnz(&mut self, c: Value, code: TrapCode) -> Inst;
     fn op1(&mut self, k: u8, a: Value) -> Value;
     fn conv(&mut self, ty: Type, a: Value, widen: bool) -> Value;
     fn op_select(&mut self, c: Value, a: Value, b: Value) -> Value;
@@ -271,6 +289,19 @@ fn sext(v: u64, t: Type) -> i64 { match t.0 { 8 => v as u8 as i8 as i64, 16 => v
 
 impl<'a> BuilderCore for FunctionBuilder<'a> {
     fn op_const(&mut self, ty: Type, v: u64) -> Value { self.check_open(); self.push(ty, v) }
+    fn op2_imm(&mut self, k: u8, a: Value, imm: i64) -> Value {
+        let t = self.ty(a);
+        let c = self.op_const(t, (imm as u64) & mask(t));
+        if k == 11 { self.op2(1, c, a) } else { self.op2(k, a, c) }
+    }
+    fn sext_to(&mut self, ty: Type, a: Value) -> Value {
+        self.check_open();
+        let t = self.ty(a);
+        assert!(ty.0 > t.0, "cranelift verifier: sextend must widen");
+        let x = sext(self.val(a), t) as u64;
+        self.push(ty, x)
+    }
+    fn op_trapnz(&mut self, c: Value, _code: TrapCode) -> Inst { self.check_open(); if self.val(c) != 0 { self.trap(); } Inst(0) }
     fn op2(&mut self, k: u8, a: Value, b: Value) -> Value {
         self.check_open();
         let t = self.ty(a);
